@@ -704,7 +704,7 @@ func cCount(th bool) {
 	if !th {
 		third = len(repIDs)
 	}
-	fmt.Printf("A: %d atoms; 1-chains %d, 2-chains %d, 3-chains %d, long chains %d\n", na, 5*na, 7*na*na, 2*third*third*third, 2*(16+32+64))
+	fmt.Printf("A: %d atoms; 1-chains %d (+ %d with the values as engine globals), 2-chains %d, 3-chains %d, long chains %d\n", na, 5*na, 2*na, 7*na*na, 2*third*third*third, 2*(16+32+64))
 	nb := 0
 	seqs := allSeqs(th)
 	for _, q := range seqs {
@@ -717,14 +717,16 @@ func cCount(th bool) {
 	nd, p := 0, 1
 	for l := 1; l <= dMaxLen(th); l++ {
 		p *= len(dAlphabet)
-		nd += 2 * p
+		nd += 2 * p * 3 // x layers {context, globals, both}
 	}
 	ne, p := 0, 1
 	for l := 1; l <= eMaxDepth(th); l++ {
 		p *= len(eWrappers)
-		ne += p
+		ne += p * 2 // x {new variable, also an engine global}
 	}
 	fmt.Printf("D: %d cases; E: %d cases; F: %d cases\n", nd, ne, fCount(th))
+	nh, nhl := hCount(th)
+	fmt.Printf("H: %d cases; HL: %d cases\n", nh, nhl)
 	for _, l := range cLayers(th) {
 		g := newGen(l.al)
 		top := gctx{0, false}
